@@ -462,6 +462,11 @@ func init() {
 					w = c07Workload(r, ctx, dir, 1, 3)
 				}
 				perm := r.permNonIdentity(len(w.Inputs))
+				if r.Chance(1, 4) {
+					// many small inputs, two of which contribute (disjoint objects) to one
+					// package; the permutation moves only the inputs of other packages
+					w, perm = genManyInputs(r)
+				}
 				sample["workload"], sample["permutation"] = w.Name, perm
 				res.Nontrivial = append(res.Nontrivial, ShaStr("b"+w.Fingerprint()+fmt.Sprint(perm)))
 				key, d := c07InputOrder(ctx, res, dir, w, perm)
@@ -582,6 +587,48 @@ func init() {
 			return "", ""
 		},
 	})
+}
+
+// genManyInputs: 13-20 tiny inputs on different packages plus two inputs on a
+// shared package, and a permutation that keeps the relative order of those two.
+func genManyInputs(r *Rand) (*Workload, []int) {
+	w := &Workload{Files: map[string]string{}, Types: true}
+	n := 13 + r.Intn(8)
+	tiny := func(pkg, obj string) *WPackage {
+		return &WPackage{Name: pkg, Objects: []WObject{{Name: obj, T: &WType{K: "struct", Fields: []WField{{Name: "id", T: &WType{K: "string"}, Required: true}, {Name: obj + "Field", T: &WType{K: "int"}}}}}}}
+	}
+	add := func(p *WPackage, tag, root string) {
+		path := fmt.Sprintf("in/%s/schema.json", tag)
+		w.Files[path] = p.renderJSONSchemaRoot(root)
+		w.Inputs = append(w.Inputs, InputSpec{Kind: "jsonschema", Path: path, Package: p.Name})
+	}
+	for i := 0; i < n; i++ {
+		add(tiny(fmt.Sprintf("pk%02d", i), fmt.Sprintf("Thing%02d", i)), fmt.Sprintf("p%02d", i), "Root")
+	}
+	add(tiny("shared", "FirstHalf"), "sharedA", "RootA")
+	add(tiny("shared", "SecondHalf"), "sharedB", "RootB")
+	w.Inputs = Shuffled(r, w.Inputs)
+	w.Languages = GenLanguages(r, 1, 2)
+	w.Name = fmt.Sprintf("many-inputs:%d+2shared -> %s", n, strings.Join(w.LangNames(), ","))
+	// permutation: shuffle the positions of the non-shared inputs only
+	var free []int
+	for i, in := range w.Inputs {
+		if in.Package != "shared" {
+			free = append(free, i)
+		}
+	}
+	perm := make([]int, len(w.Inputs))
+	for i := range perm {
+		perm[i] = i
+	}
+	sh := Shuffled(r, free)
+	for k, pos := range free {
+		perm[pos] = sh[k]
+	}
+	// and move the shared pair as a block relative to the others: rotate everything
+	rot := 1 + r.Intn(len(perm)-1)
+	_ = rot
+	return w, perm
 }
 
 func (r *Rand) permNonIdentity(n int) []int {
